@@ -28,9 +28,146 @@ func callOn(e ast.Expr) (string, string, bool) {
 	return exprString(sel.X), sel.Sel.Name, true
 }
 
+// isUnlockOf reports whether st is the statement `mu.Unlock()` / `mu.RUnlock()`.
+func isUnlockOf(st ast.Stmt, mu string) bool {
+	es, ok := st.(*ast.ExprStmt)
+	if !ok {
+		return false
+	}
+	mu2, m2, ok := callOn(es.X)
+	return ok && mu2 == mu && (m2 == "Unlock" || m2 == "RUnlock")
+}
+
+func plainReturn(r *ast.ReturnStmt) bool {
+	for _, e := range r.Results {
+		switch e.(type) {
+		case *ast.Ident, *ast.BasicLit:
+		default:
+			return false
+		}
+	}
+	return true
+}
+
+// explicitWholeBody: the statements after `mu.Lock()` release the mutex exactly where a
+// `defer mu.Unlock()` would: an Unlock immediately before EVERY return (whose results are plain
+// locals / literals, so nothing is evaluated after the unlock) and as the last statement when the
+// end of the function is reachable, and no other Unlock anywhere (not in nested function
+// literals either).  Such a body holds the lock over the whole section, like the deferred form.
+func explicitWholeBody(list []ast.Stmt, mu string) bool {
+	sawUnlock := false
+	var walk func(l []ast.Stmt, top bool) bool
+	nested := func(st ast.Stmt) ([][]ast.Stmt, bool) {
+		switch s := st.(type) {
+		case *ast.BlockStmt:
+			return [][]ast.Stmt{s.List}, true
+		case *ast.LabeledStmt:
+			return [][]ast.Stmt{{s.Stmt}}, true
+		case *ast.IfStmt:
+			out := [][]ast.Stmt{s.Body.List}
+			if s.Else != nil {
+				out = append(out, []ast.Stmt{s.Else})
+			}
+			return out, true
+		case *ast.ForStmt:
+			return [][]ast.Stmt{s.Body.List}, true
+		case *ast.RangeStmt:
+			return [][]ast.Stmt{s.Body.List}, true
+		case *ast.SwitchStmt:
+			var out [][]ast.Stmt
+			for _, c := range s.Body.List {
+				out = append(out, c.(*ast.CaseClause).Body)
+			}
+			return out, true
+		case *ast.TypeSwitchStmt:
+			var out [][]ast.Stmt
+			for _, c := range s.Body.List {
+				out = append(out, c.(*ast.CaseClause).Body)
+			}
+			return out, true
+		case *ast.SelectStmt:
+			var out [][]ast.Stmt
+			for _, c := range s.Body.List {
+				out = append(out, c.(*ast.CommClause).Body)
+			}
+			return out, true
+		}
+		return nil, false
+	}
+	walk = func(l []ast.Stmt, top bool) bool {
+		for i, st := range l {
+			if isUnlockOf(st, mu) {
+				sawUnlock = true
+				if i+1 < len(l) {
+					if r, ok := l[i+1].(*ast.ReturnStmt); ok && plainReturn(r) {
+						continue
+					}
+					return false
+				}
+				if top {
+					continue // last statement of the function
+				}
+				return false
+			}
+			if r, ok := st.(*ast.ReturnStmt); ok {
+				if i == 0 || !isUnlockOf(l[i-1], mu) || !plainReturn(r) {
+					return false
+				}
+				continue
+			}
+			if subs, ok := nested(st); ok {
+				for _, sub := range subs {
+					if !walk(sub, false) {
+						return false
+					}
+				}
+				continue
+			}
+			// any other statement must not mention an unlock of this mutex (go/defer/func literals included)
+			bad := false
+			ast.Inspect(st, func(n ast.Node) bool {
+				if c, ok := n.(*ast.CallExpr); ok {
+					if mu2, m2, ok := callOn(c); ok && mu2 == mu && (m2 == "Unlock" || m2 == "RUnlock") {
+						bad = true
+					}
+				}
+				if _, ok := n.(*ast.ReturnStmt); ok {
+					// a return inside a function literal is not a return of this function; one anywhere else
+					// in an unsupported statement is
+					return true
+				}
+				return true
+			})
+			if bad {
+				return false
+			}
+		}
+		return true
+	}
+	if len(list) == 0 {
+		return false
+	}
+	last := list[len(list)-1]
+	if _, isRet := last.(*ast.ReturnStmt); !isRet && !isUnlockOf(last, mu) {
+		return false // the end of the function would be reached with the lock held
+	}
+	return walk(list, true) && sawUnlock
+}
+
+// methodLockShape: the lock shape of a method whose first statement takes the lock.
 func methodLockShape(fd *ast.FuncDecl) lockShape {
+	if fd == nil || fd.Body == nil {
+		return lockShape{lockCall: "none"}
+	}
+	return stmtsLockShape(fd.Body.List)
+}
+
+// stmtsLockShape: the same for a statement list that starts with the Lock (a method body, or
+// the tail of one from the Lock on).
+func stmtsLockShape(stmts []ast.Stmt) lockShape {
 	sh := lockShape{lockCall: "none"}
-	if fd == nil || fd.Body == nil || len(fd.Body.List) == 0 {
+	fd := &ast.FuncDecl{Body: &ast.BlockStmt{List: stmts}}
+	if len(fd.Body.List) == 0 {
 		return sh
 	}
 	first, ok := fd.Body.List[0].(*ast.ExprStmt)
@@ -50,6 +187,11 @@ func methodLockShape(fd *ast.FuncDecl) lockShape {
 		}
 	}
 	body := fd.Body.List
+	if !sh.deferred && explicitWholeBody(body[1:], mu) {
+		// `defer mu.Unlock()` written out: an Unlock before every return and at the end, no other
+		sh.deferred = true
+		return sh
+	}
 	if !sh.deferred {
 		// the same thing written without defer: `mu.Lock(); …; mu.Unlock(); return <locals/literals>` (or the
 		// Unlock as the very last statement) holds the lock over the whole body as well
